@@ -113,6 +113,44 @@ func init() {
 		"strings.Contains":           stringsContains,
 		"strings.Index":              stringsIndex,
 		"strings.HasPrefix":          stringsHasPrefix,
+		"strings.ToLower":            strings1(strings.ToLower),
+		"strings.ToUpper":            strings1(strings.ToUpper),
+		"strings.TrimSpace":          strings1(strings.TrimSpace),
+		"strings.TrimSuffix":         strings2(strings.TrimSuffix),
+		"strings.TrimPrefix":         strings2(strings.TrimPrefix),
+		"strings.Trim":               strings2(strings.Trim),
+		"strings.TrimLeft":           strings2(strings.TrimLeft),
+		"strings.TrimRight":          strings2(strings.TrimRight),
+		"strings.HasSuffix":          stringsPred(strings.HasSuffix),
+		"strings.EqualFold":          stringsPred(strings.EqualFold),
+		"strings.ReplaceAll":         func(e *Exec, g *Goroutine, fn *ssa.Function, a []Value) (Value, bool) {
+			return StrV{s: strings.ReplaceAll(concStr(a[0], fn.Name()), concStr(a[1], fn.Name()), concStr(a[2], fn.Name()))}, false
+		},
+		"strings.CutPrefix": func(e *Exec, g *Goroutine, fn *ssa.Function, a []Value) (Value, bool) {
+			r, ok := strings.CutPrefix(concStr(a[0], fn.Name()), concStr(a[1], fn.Name()))
+			return TupleV{StrV{s: r}, e.tt.Bool(ok)}, false
+		},
+		"strings.CutSuffix": func(e *Exec, g *Goroutine, fn *ssa.Function, a []Value) (Value, bool) {
+			r, ok := strings.CutSuffix(concStr(a[0], fn.Name()), concStr(a[1], fn.Name()))
+			return TupleV{StrV{s: r}, e.tt.Bool(ok)}, false
+		},
+		"strings.Cut": func(e *Exec, g *Goroutine, fn *ssa.Function, a []Value) (Value, bool) {
+			x, y, ok := strings.Cut(concStr(a[0], fn.Name()), concStr(a[1], fn.Name()))
+			return TupleV{StrV{s: x}, StrV{s: y}, e.tt.Bool(ok)}, false
+		},
+		"strings.IndexByte": func(e *Exec, g *Goroutine, fn *ssa.Function, a []Value) (Value, bool) {
+			c, ok := a[1].(*Term)
+			if !ok || !c.IsConst() {
+				panic(mkEnd("unsupported", "strings.IndexByte of a symbolic byte"))
+			}
+			return e.tt.Const(64, uint64(int64(strings.IndexByte(concStr(a[0], fn.Name()), byte(c.val))))), false
+		},
+		"strings.LastIndex": func(e *Exec, g *Goroutine, fn *ssa.Function, a []Value) (Value, bool) {
+			return e.tt.Const(64, uint64(int64(strings.LastIndex(concStr(a[0], fn.Name()), concStr(a[1], fn.Name()))))), false
+		},
+		"strings.Count": func(e *Exec, g *Goroutine, fn *ssa.Function, a []Value) (Value, bool) {
+			return e.tt.Const(64, uint64(int64(strings.Count(concStr(a[0], fn.Name()), concStr(a[1], fn.Name()))))), false
+		},
 		"strings.Split":              stringsSplit,
 		"strings.SplitN":             stringsSplit,
 		"path.Join":                  pathJoin,
@@ -424,6 +462,23 @@ func stringsIndex(e *Exec, g *Goroutine, fn *ssa.Function, a []Value) (Value, bo
 func stringsHasPrefix(e *Exec, g *Goroutine, fn *ssa.Function, a []Value) (Value, bool) {
 	return e.tt.Bool(strings.HasPrefix(concStr(a[0], "strings.HasPrefix"), concStr(a[1], "strings.HasPrefix"))), false
 }
+// pure functions of package strings on concrete strings: computed by the real function
+func strings1(f func(string) string) intrinsicFn {
+	return func(e *Exec, g *Goroutine, fn *ssa.Function, a []Value) (Value, bool) {
+		return StrV{s: f(concStr(a[0], "strings."+fn.Name()))}, false
+	}
+}
+func strings2(f func(string, string) string) intrinsicFn {
+	return func(e *Exec, g *Goroutine, fn *ssa.Function, a []Value) (Value, bool) {
+		return StrV{s: f(concStr(a[0], "strings."+fn.Name()), concStr(a[1], "strings."+fn.Name()))}, false
+	}
+}
+func stringsPred(f func(string, string) bool) intrinsicFn {
+	return func(e *Exec, g *Goroutine, fn *ssa.Function, a []Value) (Value, bool) {
+		return e.tt.Bool(f(concStr(a[0], "strings."+fn.Name()), concStr(a[1], "strings."+fn.Name()))), false
+	}
+}
+
 func stringsSplit(e *Exec, g *Goroutine, fn *ssa.Function, a []Value) (Value, bool) {
 	var parts []string
 	if fn.Name() == "SplitN" {
